@@ -444,7 +444,7 @@ func c09CopyEdit(r *rand.Rand, start map[string]any, o genOpts) Case {
 func init() {
 	register(&Prop{
 		ID:   "C09",
-		Rule: "sequences of 1-12 JSON Patch operations (add, remove, replace, move, copy, test; value/from occasionally missing) on one generated document; pointers aimed at existing locations, sibling keys, index +-1/len/len+1, non-numeric / negative / non-canonical tokens on lists, scalar parents, moves into own descendants and onto themselves (incl. list items of every kind moved or copied beneath themselves, whose right-hand neighbour would slide into their place), all-digit tokens beyond the machine word, moves under a sibling whose name starts with the source's name; after EVERY step: status and whole document vs an RFC 6902 reference interpreter over plain values (Go) and vs the Coq model of patch.Do and the Coq RFC interpreter; a failing step must leave the document as it was; copy-edit sequences (copy a composite, edit inside the copy, test the source). Non-trivial: a failing step after a succeeding one. Distinct by Gallina term. Every second pointer reaches patch.Do as RFC 6901 text parsed by patch.ParsePath; an eighth of the documents use non-ASCII member names. Half of the patched documents are built by the decoder (shared null leaf), some hold lists with several nulls.",
+		Rule: "sequences of 1-12 JSON Patch operations (add, remove, replace, move, copy, test; value/from occasionally missing) on one generated document; pointers aimed at existing locations, sibling keys, index +-1/len/len+1, non-numeric / negative / non-canonical tokens on lists, scalar parents, moves into own descendants and onto themselves (incl. list items of every kind moved or copied beneath themselves, whose right-hand neighbour would slide into their place), all-digit tokens beyond the machine word, moves under a sibling whose name starts with the source's name; after EVERY step: status and whole document vs an RFC 6902 reference interpreter over plain values (Go) and vs the Coq model of patch.Do and the Coq RFC interpreter; a failing step must leave the document as it was; copy-edit sequences (copy a composite, edit inside the copy, test the source). Non-trivial: a failing step after a succeeding one. Distinct by Gallina term. Every second pointer reaches patch.Do as RFC 6901 text parsed by patch.ParsePath; an eighth of the documents use non-ASCII member names. Half of the patched documents are built by the decoder (shared null leaf), some hold lists with several nulls. Lists of 9, 10, 12 and 20 items.",
 		Corpus: func() []Case {
 			d := map[string]any{"a": []any{1, 2}, "s": "x", "c": map[string]any{"k": []any{map[string]any{"v": 1}, 2}}}
 			v := func(x any) rop { return rop{Val: x, HasVal: true} }
